@@ -44,6 +44,7 @@ type CheckCfg struct {
 	Extra       []string     `json:"extra_steps"`
 	Parts       []string     `json:"parts"`
 	ZeroStubs   []string     `json:"zero_stubs"` // functions replaced by stubs returning zero values (calls are logged)
+	JSONModel   bool         `json:"json_model"` // install the text-level model of encoding/json (jsonmodel.go)
 	MaxSteps    int          `json:"max_steps"`  // interpreter step bound per path (default 400000)
 	Gen         *GenCfg      `json:"gen"`        // the code under check is the OUTPUT of the generator built from the repository
 }
@@ -336,6 +337,9 @@ func runOne(name string, cfg CheckCfg, tier, repo, only string, workers int, noN
 	}
 	if cfg.MaxSteps > 0 {
 		eng.maxSteps = cfg.MaxSteps
+	}
+	if cfg.JSONModel {
+		registerJSONModel(eng)
 	}
 	eng.initPackage(eng.target, false)
 	eng.bridgeSwagPrefix()
